@@ -2,6 +2,9 @@
 //! Generated parts live in src/gen/ and are rewritten from /repo's current source by the checks.
 
 mod generated;
+#[path = "../../reflex/src/lib.rs"]
+mod reflex;
+mod lexdiff;
 
 fn main()
 {
@@ -10,9 +13,11 @@ fn main()
 	{
 		Some("error-codes") => generated::error_codes::run(),
 		Some("value-types") => generated::value_types::run(&args[2..]),
+		Some("lexdiff") => lexdiff::run(&args[2..]),
+		Some("lexobs") => lexdiff::run_obs(),
 		_ =>
 		{
-			eprintln!("usage: pv_replay <error-codes|value-types>");
+			eprintln!("usage: pv_replay <error-codes|value-types|lexdiff>");
 			std::process::exit(2);
 		}
 	}
